@@ -473,8 +473,8 @@ def float_part(R: Run, mods):
                 case["mode"] = f"explicit {mode_arg}"
             else:
                 mode_arg = mode
-            if mode == "fit" and rnd is True and dst == "EPSG:4326":
-                rnd = None  # rounding degrees to whole numbers is not a sensible request
+            if rnd is True and dst == "EPSG:4326":
+                rnd = None  # rounding degrees to whole numbers gives a zero pixel size: not a sensible request
                 case["round"] = None
             out, spy = call_cog(mods, g, dst, mode_arg, shape, tight, anchor, tol, rnd)
         except Exception as e:  # pylint: disable=broad-except
